@@ -447,8 +447,14 @@ func (tb *TermBuilder) resolve(a *ssa.Alloc, path []string, depth int, L ssa.Ins
 		if len(cands) == 0 {
 			return &Term{Op: "zero", Name: tname(deref(a.Type())) + pathString(path)}
 		}
-		if needZero && !a.Heap {
-			_ = needZero // zero value may still be visible; only reported for non-escaping locals
+		hasPartial := false
+		for _, cd := range cands {
+			if cd.Op == "partial" {
+				hasPartial = true
+			}
+		}
+		if needZero && !a.Heap && !hasPartial {
+			// zero value may still be visible (fields of a literal built field by field are read through partials)
 			cands = append(cands, &Term{Op: "zero", Name: tname(deref(a.Type())) + pathString(path)})
 		}
 		if len(cands) == 1 {
@@ -1085,7 +1091,8 @@ func enclosingLoopHeader(b *ssa.BasicBlock) *ssa.BasicBlock {
 	// nearest dominator d of b such that some pred p of d is dominated by d (back edge) and d reaches b and b reaches d
 	for d := b; d != nil; d = d.Idom() {
 		for _, p := range d.Preds {
-			if d.Dominates(p) && (p == b || reaches(b, p) || b == d) {
+			// back edge p -> d; b belongs to the natural loop of d iff it reaches p without leaving through d
+			if d.Dominates(p) && (p == b || b == d || reachesAvoiding(b, p, map[*ssa.BasicBlock]bool{d: true})) {
 				return d
 			}
 		}
